@@ -66,7 +66,7 @@ def run_case(case):
         scale = abs(a) * max(float(np.max(np.abs(x1))), s1[j]) + abs(b) * max(float(np.max(np.abs(x2))), s2[j]) or 1.0
         e = float(np.max(np.abs(x3 - (a * x1 + b * x2)))) / scale
         resid[f"superposition_{nm}_{prec}"] = e
-        if e > tol:
+        if not e <= tol:
             viol.append({"what": "superposition_fails", "field": nm, "rel": e, "tol": tol, "a": a, "b": b, "c1": c1, "c2": c2,
                          "precision": prec, "analytic": analytic, "levels": levels, "setup": desc})
     # the background never changes the flux and only offsets the concentration
@@ -82,12 +82,12 @@ def run_case(case):
         counters["flux_bitwise_independent_of_bg"] += 1
     e = float(np.max(np.abs(fb - f0))) / (float(np.max(np.abs(f0))) or 1.0)
     resid[f"flux_vs_bg_{prec}"] = e
-    if e > 1e-12:
+    if not e <= 1e-12:
         viol.append({"what": "flux_depends_on_background", "rel": e, "bg": bg, "precision": prec, "analytic": analytic, "setup": desc})
     off = pb - p0 - bg
     e = float(np.max(np.abs(off))) / (abs(bg) + float(np.max(np.abs(p0))))
     resid[f"bg_offset_{prec}"] = e
-    if e > (1e-11 if prec == "double" else 5e-6):
+    if not e <= (1e-11 if prec == "double" else 5e-6):
         viol.append({"what": "background_is_not_a_uniform_offset", "rel": e, "bg": bg, "precision": prec, "analytic": analytic,
                      "spread": float(np.ptp(off)), "setup": desc})
     # footprint mode: only the shape of the surface-flux array matters
